@@ -359,11 +359,14 @@ func (s *peekingScanner) Err() error {
 }
 
 func (s *peekingScanner) Peek() string {
-	if !s.src.Scan() {
-		return ""
+	for s.src.Scan() {
+		// Comment lines are ignored, look past them.
+		if t := s.src.Text(); !strings.HasPrefix(strings.TrimSpace(t), "#") {
+			s.peeked = t
+			return s.peeked
+		}
 	}
-	s.peeked = s.src.Text()
-	return s.peeked
+	return ""
 }
 
 func (s *peekingScanner) Scan() bool {
